@@ -13,6 +13,7 @@ import itertools
 from ..absint import FlagEval, TOP
 from ..cfg import CFG, forward
 from ..model import walk_shallow, call_name, is_self_attr, dotted_name, parent, ancestors, enclosing_function, AnalysisError
+from ..util import canon
 from ..util import (has_call, find_calls, assigned_value, const_str, unparse, kw, arg_or_kw, enclosing_stmt,
                     guards_of, call_tail, control_ancestors, node_ast_for_effects)
 from .. import mutate as M
@@ -49,6 +50,7 @@ def run(ctx):
     r6_failed_population(ctx)
     r7_callers(ctx)
     r8_slot_index(ctx)
+    r9_presence_agreement(ctx)
 
 
 # ------------------------------------------------------------------------------------------ R1
@@ -351,11 +353,12 @@ def r2_typestate(ctx, summ):
                detail={"L": Ls}, stmt=f"_release_read_on_exit: {what}")
     deco = [unparse(d) for d in fn.decorator_list]
     ctx.ob("C19.R2", CCH, "ConcurrentCacher._release_read_on_exit", fn, "the helper is a @contextmanager", deco == ["contextmanager"], stmt="@contextmanager")
-    if ctx.thorough:
-        for mname in ("get_set", "rmv"):
-            ts = TypeState(cls.methods[mname], summ, 0, base_exceptions=True)
-            bad = sorted({L for L, _ in ts.states_at(ts.cfg.exit_raise) if L != 0})
-            ctx.note(f"C19.R2 (information, outside the stated quantifier): with BaseException edges (KeyboardInterrupt) {mname} can exit holding L in {bad}")
+    # KeyboardInterrupt / SystemExit raised by the getter or the inner cache are exceptions too: the same typestate run over the CFG with BaseException edges
+    for mname in ("get_set", "rmv"):
+        ts = TypeState(cls.methods[mname], summ, 0, base_exceptions=True)
+        bad = sorted({L for L, _ in ts.states_at(ts.cfg.exit_raise) if L != 0})
+        ctx.ob("C19.R2", CCH, f"ConcurrentCacher.{mname}", cls.methods[mname], f"{mname} holds no lock when it is left through any exception, BaseException (KeyboardInterrupt) included",
+               not bad, detail={"L at the raising exit": bad}, stmt=f"{mname}: lock state on BaseException exits")
 
 
 # ------------------------------------------------------------------------------------------ R3
@@ -514,7 +517,44 @@ def r8_slot_index(ctx):
     ctx.floor("C19.R8", "slot look-ups in the lock helpers", n, 4)
 
 
+def r9_presence_agreement(ctx, rule="C19.R9"):
+    """ConcurrentCacher chooses between its read path (read lock, inner get_set(key, None)) and its write path by `key in <inner cache>`:
+    an inner get_set that mutates the store for a key its own __contains__ reports as present mutates under a mere read lock."""
+    from ..util import all_guards
+    ctx.rule(rule, "presence agreement of the inner cachers: in get_set of every Cacher that can sit inside a ConcurrentCacher, each statement that removes or (re)writes "
+                   "the entry is guarded by `key not in self` -- the negation of the very predicate ConcurrentCacher uses to take the read path; an extra notion of "
+                   "'absent' inside get_set (e.g. a zero-length file) is a write under a read lock and a getter of None")
+    base = ctx.model.cls(CCH, "Cacher")
+    n = 0
+    for c in ctx.model.subclasses(base):
+        if c.rel != CCH or c.name in ("ConcurrentCacher", "NullCacher"):
+            continue
+        fn = c.methods.get("get_set")
+        if fn is None:
+            continue
+        ctx.touch(CCH, f"{c.name}.get_set")
+        K = fn.args.args[1].arg
+        muts = []
+        for x in ast.walk(fn):
+            if isinstance(x, ast.Call) and isinstance(x.func, ast.Attribute) and is_self_attr(x.func, "rmv"):
+                muts.append((x, "removes the entry"))
+            if isinstance(x, ast.Call) and (call_name(x) or "").split(".")[-1] == "open" and any(isinstance(a, ast.Constant) and isinstance(a.value, str) and a.value[:1] in "wxa" for a in x.args[1:2]):
+                muts.append((x, "opens the entry for writing"))
+            if isinstance(x, (ast.Assign, ast.Delete)) and any(isinstance(t, ast.Subscript) and is_self_attr(t.value) for t in x.targets):
+                muts.append((x, "stores / deletes the entry"))
+        for x, what in muts:
+            n += 1
+            gs = all_guards(x, fn)
+            ok = any((canon(unparse(t)) == canon(f"{K} not in self") and pol) or (canon(unparse(t)) == canon(f"{K} in self") and not pol) for t, pol in gs)
+            ctx.ob(rule, CCH, f"{c.name}.get_set", x, f"get_set {what} only for a key that `in` reports absent", ok,
+                   detail={"guards": [(unparse(t), pol) for t, pol in gs]})
+    ctx.floor(rule, "mutating statements in the inner cachers' get_set", n, 3)
+
+
 CONTROLS = [
+    ("get_set releases on Exception only", CCH, M.replace_stmt("ConcurrentCacher.get_set", lambda st: isinstance(st, ast.Try),
+        "try:\n    self._acquire_write_lock(key)\n    item = self._cache.get_set(key, getter)\n    self._switch_write_to_read_lock(key)\n    return self._release_read_on_exit(key, item)\nexcept Exception as e:\n    if self._has_read_lock(key): self._release_read_lock(key)\n    if self._has_write_lock(key): self._release_write_lock(key)\n    raise"), "C19.R2"),
+    ("MemoryCacher refreshes None entries", CCH, M.insert_before("MemoryCacher.get_set", M.text_has("if key not in self"), "if key in self and self._cache[key] is None: del self._cache[key]"), "C19.R9"),
     ("write lock released twice", CCH, M.replace_stmt("ConcurrentCacher.rmv", lambda st: isinstance(st, ast.Try),
         "try:\n    if key in self:\n        self._acquire_write_lock(key)\n        lock = 'write'\n        self._cache.rmv(key)\n        self._release_write_lock(key)\nfinally:\n    if lock == 'write': self._release_write_lock(key)"), "C19.R2"),
     ("slot from the salted builtin hash", CCH, M.replace_expr("ConcurrentCacher._index", "int.from_bytes(blake2b(str(key).encode('utf-8'), digest_size=self._digest_size).digest(), 'big')",
